@@ -80,7 +80,13 @@ impl SuperficialLossInfo {
     ) -> GreaterEqualZeroDecimal {
         let zero = GreaterEqualZeroDecimal::zero();
         let mut total = GreaterEqualZeroDecimal::zero();
-        for af in &self.buying_affiliates {
+        // Add in a fixed order: decimal addition rounds past 28 significant
+        // digits, so the order of a HashSet would make the last digits of the
+        // total (and of the SfLA amounts derived from it) vary from run to run.
+        let mut sorted_affiliates: Vec<&Affiliate> =
+            self.buying_affiliates.iter().collect();
+        sorted_affiliates.sort_by(|a, b| a.id().cmp(b.id()));
+        for af in sorted_affiliates {
             total +=
                 *self.active_affiliate_spladj_shares_at_eop.get(af).unwrap_or(&zero);
         }
